@@ -15,6 +15,6 @@ NA.update({
     "C05": _QUEUE % ("c05_order.rs", "Nothing is known to fail for this property."),
     "C06": _QUEUE % ("c04_ows.rs / c06_ws.rs", "A genuine defect was shown natively and is documented: an idle ordered local queue whose items a sibling stole reports empty while the sibling still holds work (ocv-replay ows_history 4 ...)."),
     "C10": "needs Scheduler::do_schedule (std HashMap/BinaryHeap, the ordered ready queue and real resumptions per pass); the ready-queue operation alone exceeds the memory available to CBMC (see C04), so no harness was built",
-    "C11": _QUEUE % ("c02_join.rs", "The listener step (CoroutineCreator::on_state_changed from an arbitrary running count) is decided, but on its own it does not decide the property (a worker dropped by the scheduler's pending-cancel branch never reaches the listener), so it is not claimed."),
+    "C11": "the decidable parts are checked (kani/harness/c02_join.rs: CoroutineCreator::on_state_changed from an arbitrary running count, submit_co against every running/max pair; 64 s, green) but they do not decide the property: whether EVERY way a worker leaves scheduling reaches that listener needs Scheduler::do_schedule with real worker bodies (std HashMap/BinaryHeap, the ordered ready queue, stack switching), which is not encodable here. A genuine defect in exactly that part was shown natively and is documented (DESIGN 8.2): a worker whose task is cancelled while suspended is dropped by the scheduler's pending-cancel branch without any state change, get_running_size() stays 1 and stop() waits out its whole timeout (ocv-replay pool_cancel: running_after_cancel 1, stop_ms 1501 of 1500). Claiming the property on the partial check would hide that",
     "C13": _QUEUE % ("c02_join.rs", "A genuine defect was shown natively and is documented: the waiter of a task cancelled before it starts sleeps its whole timeout (ocv-replay pool_cancel 1)."),
 })
